@@ -79,6 +79,18 @@ CHECKS['C19'] = dict(
          'sockets outside the claim); reference model in vt/xh/router_model.py',
 )
 
+CHECKS['C20'] = dict(
+    level='model_checking',
+    text='Symbolic execution of the real disp/dispa/disptex/printTFlist source: array shapes are enumerated within the '
+         'stated bounds, element values are symbolic (format()/round()/str() of a symbolic number yield tokens recording '
+         'which value was rendered with which width.precision; the digit-count branch forks on the magnitude); per path: '
+         'no exception, a string is returned and printed verbatim, and for ndim <= 4, |x| < 9999 the tokens are exactly '
+         'the elements in row-major order with the requested decimals. Scalars, strings, None, nested containers, '
+         'transforms, wrenches and lists of them included; nan/inf/huge values concretely.',
+    design='5/C20',
+    technique='symbolic execution of the Python source with token-valued formatting + Z3 per branch; shapes enumerated',
+)
+
 NOT_APPLICABLE = {
 }
 
